@@ -564,7 +564,7 @@ def check_model(case, rec, tol=1e-6):
             sc2 = max(1e-300, float(np.linalg.norm(A_ref, 2)) * (float(np.linalg.norm(A_ref, 2)) * float(np.linalg.norm(d)) + float(np.linalg.norm(b_ref))))
             fd_floor = 1e-8 * (1.0 + float(np.linalg.norm(A_ref, 2))) ** 2 * (1.0 + float(np.linalg.norm(d)))   # the reference J is a finite difference
             rec.check(float(np.linalg.norm(g)) <= 1e-6 * sc2 * max(1.0, cond * 1e-6) + fd_floor, "gn_normal_eq", lambda: "GN(%s): step is not a least-squares solution: |A^T(A d - b)| = %.3g" % (case["solver"], float(np.linalg.norm(g))))
-            want = retract(case, base, d)
+            want = base if huge else retract(case, base, d)
             e = param_distance(case, want, after) if not huge else 0.0
             rec.check(e <= RETR_TOL * max(1.0, float(np.abs(d).max())), "gn_retraction:%s" % glt, lambda: "GN: parameters differ from the retraction of the solver's answer by %.3g" % e)
     else:
@@ -606,7 +606,7 @@ def check_model(case, rec, tol=1e-6):
         # an update that is never applied, or always undone, must be reported.  Every rejected trial contributes one
         # Exp(-D) Exp(D) pair, which pypose evaluates to the identity only at Exp's accuracy (RETR_TOL |D| each).
         d_last = from_storage(case, rsol.calls[-1][2].reshape(-1))
-        stepped = retract(case, base, d_last)
+        stepped = base if huge else retract(case, base, d_last)      # (the reference Exp of a huge step overflows - it is not compared, below)
         e1, e0 = param_distance(case, stepped, after), param_distance(case, base, after)
         dmax = max(float(np.abs(c[2]).max()) if c[2] is not None and c[2].size else 0.0 for c in rsol.calls)
         t_ = RETR_TOL * max(1.0, dmax) * len(rsol.calls)
